@@ -93,7 +93,7 @@ def _step_labels(ctx, old, new, labels):
         if cl and RL.is_block(cl[0]) and r in old:
             if any(c.get("rewrite") for c in cl[0]["children"]) and old[r] != new[r]:
                 labels.append("rewrite-reset")
-            _step_labels(ctx.child(cl[0]), old[r], new[r], labels)
+            _step_labels(ctx.child(cl[0], r), old[r], new[r], labels)
 
 
 def check(case):
